@@ -9,6 +9,7 @@ import (
 	"fmt"
 	"math/big"
 	"reflect"
+	"sort"
 	"strconv"
 	"strings"
 
@@ -394,6 +395,45 @@ func (it *Interp) Step(t []string, op string) string {
 			panic("bad module")
 		}
 		return vh.SortedList(xs)
+	case "getord":
+		// GetRules grouped by resource (sorted), the order within a resource kept
+		type kv struct{ k, v string }
+		var xs []kv
+		switch t[1] {
+		case "flow":
+			for _, r := range flow.GetRules() {
+				r := r
+				xs = append(xs, kv{r.Resource, showFlow(&r)})
+			}
+		case "iso":
+			for _, r := range isolation.GetRules() {
+				r := r
+				xs = append(xs, kv{r.Resource, showIso(&r)})
+			}
+		case "hot":
+			for _, r := range hotspot.GetRules() {
+				r := r
+				xs = append(xs, kv{r.Resource, showHot(&r)})
+			}
+		case "cb":
+			for _, r := range cb.GetRules() {
+				r := r
+				xs = append(xs, kv{r.Resource, showCb(&r)})
+			}
+		case "sys":
+			for _, r := range system.GetRules() {
+				r := r
+				xs = append(xs, kv{strconv.Itoa(int(r.MetricType)), showSys(&r)})
+			}
+		default:
+			panic("bad module")
+		}
+		sort.SliceStable(xs, func(i, j int) bool { return xs[i].k < xs[j].k })
+		out := make([]string, len(xs))
+		for i, x := range xs {
+			out[i] = x.v
+		}
+		return vh.List(out)
 	case "getres":
 		res := str(t[2])
 		var xs []string
@@ -579,7 +619,7 @@ func (it *Interp) probe(t []string) string {
 	case "flow":
 		res := str(t[2])
 		for _, r := range flow.GetRulesOfResource(res) {
-			if r.TokenCalculateStrategy != flow.Direct || r.RelationStrategy != flow.CurrentResource {
+			if r.TokenCalculateStrategy != flow.Direct || r.RelationStrategy != flow.CurrentResource || r.StatIntervalInMs > 90000 {
 				return "?" // warm-up / memory-adaptive / associated decisions are not modelled by C13
 			}
 		}
@@ -588,9 +628,14 @@ func (it *Interp) probe(t []string) string {
 		return entry(str(t[2]), uint32(vh.U(t[3])), base.Outbound)
 	case "cb":
 		res := str(t[2])
+		for _, r := range cb.GetRulesOfResource(res) {
+			if r.StatIntervalMs > 90000 {
+				return "?" // the breaker's window outlives the idle gap: what earlier probes left behind still counts
+			}
+		}
 		e, b := sentinel.Entry(res, sentinel.WithTrafficType(base.Outbound))
 		if b != nil {
-			return "block-first"
+			return "block" // a breaker that is still open (retry timeout longer than the idle gap)
 		}
 		sentinel.TraceError(e, errors.New("probe"))
 		it.clk.Ns += 50 * 1e6
@@ -611,7 +656,7 @@ func (it *Interp) probeSeq(t []string) string {
 	it.idle()
 	res := str(t[2])
 	for _, r := range flow.GetRulesOfResource(res) {
-		known := r.RelationStrategy == flow.CurrentResource
+		known := r.RelationStrategy == flow.CurrentResource && r.StatIntervalInMs <= 90000 // a longer window outlives the idle gap
 		switch r.TokenCalculateStrategy {
 		case flow.Direct, flow.MemoryAdaptive:
 		case flow.WarmUp:
@@ -621,7 +666,7 @@ func (it *Interp) probeSeq(t []string) string {
 			T := int64(r.Threshold)
 			cf := int64(r.WarmUpColdFactor)
 			known = known && r.ControlBehavior == flow.Reject && r.Threshold >= 0 && r.Threshold <= 1<<40 && float64(T) == r.Threshold &&
-				cf != 0 && T%cf != 0 && 2*int64(r.WarmUpPeriodSec)*T >= 1+cf
+				cf != 0 && T%cf != 0 && r.WarmUpPeriodSec <= 1000000 && cf <= 1000000 && 2*int64(r.WarmUpPeriodSec)*T >= 1+cf
 		default:
 			known = false
 		}
